@@ -264,6 +264,7 @@ CORPUS += [
 
 CORPUS += [
     # ---------------------------------------------------------------- C04
+    V("C04", "ffsp-tables-bound-once", "rl4co/envs/scheduling/ffsp/env.py", "        self.tables.set_bs(batch_size[0])\n", "        if getattr(self, '_bs_done', False) is False:\n            self.tables.set_bs(batch_size[0])\n            self._bs_done = True\n", "C04.d"),
     V("C04", "cvrp-done-all-batch", R + "cvrp/env.py", "done = visited.sum(-1) == visited.size(-1)", "done = (visited.sum(-1) == visited.size(-1)).all().expand(visited.size(0))", "C04.a"),
     V("C04", "cvrptw-row0-deadline-again", R + "cvrptw/env.py", '<= td["time_windows"][..., 0, 1, None]', '<= td["time_windows"][..., 0, 1][0]', "C04.a"),
     V("C04", "op-capacity-from-row0", R + "op/env.py", '            > td["max_length"]\n', '            > td["max_length"][0]\n', "C04.a"),
